@@ -61,18 +61,20 @@ Proof.
          end; try reflexivity; apply sget_sset_other; exact Hne.
 Qed.
 Lemma inherit_prop_noninherited k pk pst st p :
-  p <> p_FontSize -> p <> p_TextDecoration -> is_inherited p = false -> inherit_prop k pk pst st p = st.
+  p <> p_WritingMode -> p <> p_FontSize -> p <> p_TextDecoration -> is_inherited p = false -> inherit_prop k pk pst st p = st.
 Proof.
-  intros H1 H2 H3. unfold inherit_prop.
+  intros H0 H1 H2 H3. unfold inherit_prop.
   destruct (p =? p_FontSize) eqn:E1; [apply Z.eqb_eq in E1; congruence|].
   destruct (p =? p_TextDecoration) eqn:E2; [apply Z.eqb_eq in E2; congruence|].
+  destruct (p =? p_WritingMode) eqn:E3; [apply Z.eqb_eq in E3; congruence|].
   rewrite H3. reflexivity.
 Qed.
+(* (tts:writingMode is carried down although it is not inherited: StyleProcessors.WritingMode.inherit) *)
 Lemma apply_inherit_get k pk pst q :
-  q <> p_FontSize -> q <> p_TextDecoration -> is_inherited q = false ->
+  q <> p_WritingMode -> q <> p_FontSize -> q <> p_TextDecoration -> is_inherited q = false ->
   forall keys st, sget (apply_inherit k pk pst keys st) q = sget st q.
 Proof.
-  intros H1 H2 H3. induction keys as [|p keys IH]; intros st; [reflexivity|]. cbn [apply_inherit]. rewrite IH.
+  intros H0 H1 H2 H3. induction keys as [|p keys IH]; intros st; [reflexivity|]. cbn [apply_inherit]. rewrite IH.
   destruct (Z.eq_dec p q) as [->|Hne]; [rewrite inherit_prop_noninherited by assumption; reflexivity|].
   apply inherit_prop_other. congruence.
 Qed.
